@@ -11,6 +11,7 @@ import time
 import argparse
 import hashlib
 import subprocess
+import re as re_
 from concurrent.futures import ThreadPoolExecutor
 
 ROOT = os.path.dirname(os.path.dirname(os.path.abspath(__file__)))
@@ -186,6 +187,8 @@ def main():
                 for fm in mm["fns"]:
                     v = rc.fns.get((mod, fm["fn"]))
                     spec_fn = None
+                    if mod == "lemmas":
+                        continue
                     for it in u.items:
                         for f_ in it.fns:
                             if f_.name == fm["fn"] and it.file == mm["file"] and it.header == mm["header"]:
@@ -276,6 +279,10 @@ def main():
                 cex = dict(error=str(e))
             if cex and cex.get("input"):
                 found_any = True
+            if any(re_.search(r"simplifies to false", e.get("title", "")) for e in v.get("errors", [])):
+                # a ground lemma falsified by exact evaluation: the lemma text with its numerals *is* the failing input
+                found_any = True
+                cex = dict(input="ground statement evaluated to false by Verus by(compute_only)", statement=[e.get("text", "")[:1500] for e in v.get("errors", [])])
             rep["failed_obligations"].append(dict(obligation=oid, unit=n, file=mm.get("file"), header=mm.get("header"),
                                                   fn=fm["fn"], lines=fm.get("lines"),
                                                   verifier_output=[e["text"] for e in v.get("errors", [])][:6],
